@@ -23,7 +23,7 @@ EXPLANATION = (
     "carving of a feature rebinds no attribute of self; no frame-wide replace inside a per-feature loop)."
 )
 NOT_DECIDED = "multiprocessing's own behaviour; effect of the hash seed beyond iteration order"
-FLOORS = {"R-seq-par-agree": 3, "R-pool-keyed": 6, "R-worker-pure": 3, "R-no-iter-mutation": 3, "R-key-local": 8}
+FLOORS = {"R-order-statistic": 4, "R-seq-par-agree": 3, "R-pool-keyed": 6, "R-worker-pure": 3, "R-no-iter-mutation": 3, "R-key-local": 8}
 
 LV = "<feature>"
 
@@ -427,7 +427,75 @@ def rule_feature_isolated(ctx):
         ctx.ob(R, "no frame-wide replace / fillna inside a per-feature loop", True, "")
 
 
+def rule_no_cross_feature_condition(ctx):
+    """A per-feature decision of transform must not depend on the other features: a flag computed by
+    any / all / sum over the feature list from per-feature fitted state (`any(str_nan in labels[f] for
+    f in features)`) makes the treatment of one feature depend on which other features are present."""
+    R = "R-key-local"
+    for spec in (f"{F_BASE}::BaseDiscretizer._transform_qualitative", f"{F_BASE}::BaseDiscretizer._transform_quantitative", f"{F_BASE}::BaseDiscretizer._check_new_values"):
+        fi = ctx.repo.find_function(spec)
+        flags = {}
+        for n in walk_no_nested(fi.node):
+            if isinstance(n, ast.Assign) and len(n.targets) == 1 and isinstance(n.targets[0], ast.Name):
+                for c in ast.walk(n.value):
+                    if isinstance(c, ast.Call) and isinstance(c.func, ast.Name) and c.func.id in ("any", "all", "sum", "max", "min") and c.args and isinstance(c.args[0], (ast.GeneratorExp, ast.ListComp)):
+                        g = c.args[0]
+                        it = unparse(g.generators[0].iter)
+                        var = {x.id for x in ast.walk(g.generators[0].target) if isinstance(x, ast.Name)}
+                        if "features" in it and any(isinstance(x, ast.Subscript) and var & {y.id for y in ast.walk(x.slice) if isinstance(y, ast.Name)} for x in ast.walk(g.elt)):
+                            flags[n.targets[0].id] = c
+        bad = []
+        direct = []
+        for n in walk_no_nested(fi.node):
+            if isinstance(n, (ast.If, ast.IfExp)):
+                for x in ast.walk(n.test):
+                    if isinstance(x, ast.Name) and x.id in flags:
+                        bad.append((n, x.id))
+                    if isinstance(x, ast.Call) and isinstance(x.func, ast.Name) and x.func.id in ("any", "all") and x.args and isinstance(x.args[0], (ast.GeneratorExp, ast.ListComp)):
+                        g = x.args[0]
+                        var = {y.id for y in ast.walk(g.generators[0].target) if isinstance(y, ast.Name)}
+                        if "features" in unparse(g.generators[0].iter) and any(isinstance(z, ast.Subscript) and var & {y.id for y in ast.walk(z.slice) if isinstance(y, ast.Name)} for z in ast.walk(g.elt)):
+                            direct.append(n)
+        ok = not bad and not direct
+        ctx.ob(R, construct(fi, "no branch of the transformation tests an aggregate over the other features' fitted state"), ok, loc(fi, bad[0][0] if bad else (direct[0] if direct else None)),
+               "" if ok else "the treatment of a feature (e.g. whether its missing values are filled) depends on whether ANOTHER feature had missing values at fit: fitting / transforming a subset of the features gives a different result for the same column")
+
+
+def rule_no_multi_column_array(ctx):
+    """A feature is handed to its worker as its own column: converting a multi-column selection to one
+    numpy array (`X[cols].to_numpy()`, `.values`) gives all columns a common dtype (int64 next to a
+    float column becomes float64: integers above 2**53 are rounded), so the fit of one feature depends
+    on which others are fitted with it."""
+    R = "R-key-local"
+    bad = []
+    n_sites = 0
+    for fi in ctx.repo.all_functions():
+        if "/discretizers/" not in fi.module.relpath and "/carvers/" not in fi.module.relpath:
+            continue
+        for n in ast.walk(fi.node):
+            base = None
+            if isinstance(n, ast.Call) and isinstance(n.func, ast.Attribute) and n.func.attr in ("to_numpy", "to_records", "to_dict") and n.func.attr == "to_numpy":
+                base = n.func.value
+            elif isinstance(n, ast.Attribute) and n.attr == "values" and isinstance(n.ctx, ast.Load):
+                base = n.value
+            elif isinstance(n, ast.Call) and isinstance(n.func, ast.Name) and n.func.id in ("asarray", "array") and n.args:
+                base = n.args[0]
+            if isinstance(base, ast.Subscript) and isinstance(base.slice, (ast.Attribute, ast.List, ast.Name)):
+                key = unparse(base.slice)
+                multi = isinstance(base.slice, ast.List) or key.endswith("features") or key in ("features", "columns", "cols")
+                if multi:
+                    n_sites += 1
+                    bad.append((fi, n))
+    ctx.ob(R, "discretizers / carvers::no multi-column selection is converted to a single numpy array", not bad, loc(bad[0][0], bad[0][1]) if bad else "",
+           "" if not bad else f"`{short(bad[0][1], 70)}` in {bad[0][0].qualname}: the columns share one dtype after the conversion")
+
+
 def check(ctx):
+    rule_no_multi_column_array(ctx)
+    rule_no_cross_feature_condition(ctx)
+    from . import quant as _q
+
+    _q.check_order_statistic(ctx, "R-order-statistic")  # the worker sees the whole column, deterministically
     rule_feature_isolated(ctx)
     workers = rule_seq_par(ctx)
     rule_pool_keyed(ctx, workers)
